@@ -295,6 +295,32 @@ func sessionSelection(p *Prog, r *Report, rule string) {
 				}
 			}
 		}
+		// a helper that builds the key from the same triple: arguments passed on unchanged, and
+		// the helper's literal takes its own parameters as they are (a normalised keyspace makes
+		// distinct keyspaces share one session)
+		eachCall(m, func(c ssa.CallInstruction) {
+			callee := c.Common().StaticCallee()
+			if callee == nil || callee == m || !p.InRepo(callee) || callee.Signature.Results().Len() != 1 || !typeIs(callee.Signature.Results().At(0).Type(), "proxy", "sessionKey") {
+				return
+			}
+			args := c.Common().Args
+			cpar := callee.Params
+			if callee.Signature.Recv() != nil {
+				args, cpar = args[1:], cpar[1:]
+			}
+			if len(args) != 3 || args[0] != ssa.Value(par["version"]) || args[1] != ssa.Value(par["keyspace"]) || args[2] != ssa.Value(par["compression"]) {
+				mb = append(mb, p.Pos(c.Pos())+": (version, keyspace, compression) not passed on unchanged to "+callee.Name())
+				return
+			}
+			for _, lit := range structLits(callee, func(t types.Type) bool { return typeIs(t, "proxy", "sessionKey") }) {
+				nlit++
+				for i, fld := range []string{"version", "keyspace", "compression"} {
+					if lit[fld] != ssa.Value(cpar[i]) {
+						mb = append(mb, fmt.Sprintf("%s: session key field %s is not the %s it was given but %s: sessions of different %ss would be shared", p.Pos(callee.Pos()), fld, fld, valDesc(lit[fld]), fld))
+					}
+				}
+			}
+		})
 		// calls passing the triple on to another Proxy method keep the order
 		eachCall(m, func(c ssa.CallInstruction) {
 			callee := c.Common().StaticCallee()
